@@ -578,4 +578,68 @@ def rule_e(ctx):
     return r
 
 
-RULES = [rule_a, rule_b, rule_c, rule_d, rule_e]
+def rule_f(ctx):
+    r = RuleResult("C05-f", "attribute values are written without quotes only if is_ident() accepts them, and is_ident() lets a value start only with a name-start "
+                   "character that is not a digit (a lone `-` or `-1` must stay quoted, otherwise the output does not re-parse)")
+    from .. import psa
+    from . import loops as _loops
+    prog = ctx.prog()
+    b = prog.one("utils::strings::is_ident")
+    nexts = [c for c in b.calls() if an.tail2(c.callee) == "Iterator::next"]
+    order = {bb: i for i, bb in enumerate(b.rpo())}
+    nexts.sort(key=lambda c: order.get(c.bb, 1 << 30))
+    nl = _loops.natural_loops(b)
+    in_loop = set().union(*nl.values()) if nl else set()
+    first = [c for c in nexts if c.bb not in in_loop]
+    later = [c for c in nexts if c.bb in in_loop]
+    if len(first) != 1 or not later:
+        raise AnchorMissing("is_ident: expected one chars.next() before the loop and at least one inside it")
+    fc = first[0]
+
+    def is_first(ap):
+        return ap.root[0] == "call" and ap.root[2] == fc.bb and "as:Some" in ap.proj
+
+    def classify(kind, obj, body, sw):
+        if kind == "call" and obj.args:
+            a = an.trace_operand(body, obj.args[0])
+            nm = obj.name() or obj.callee or ""
+            if is_first(a):
+                if nm.endswith("::is_name_start"):
+                    return psa.Pred(("NAME_START",), []), False
+                if nm.endswith("char::methods::<impl char>::is_numeric") or nm.endswith("is_ascii_digit"):
+                    return psa.Pred(("NUMERIC",), []), False
+        return None
+
+    loop_head = sorted(nl)[0] if nl else later[0].bb
+    # the first block of the scanning loop: how can control get there?
+    target = min((h for h in nl), key=lambda h: order.get(h, 1 << 30))
+    vals, complete = psa.valuations_at(b, target, classify)
+    key = "is_ident|first-character"
+    bad = [v for v in vals if not (v.get(("NAME_START",)) is True and v.get(("NUMERIC",)) is False)]
+    if complete and vals and not bad:
+        r.ok(key, valuations=len(vals))
+    else:
+        r.violate(key, "is_ident() reaches its scanning loop for a first character that has not been shown to be a non-digit name-start character (facts on such a path: %s): "
+                  "values such as `-` or `-1` are then written unquoted in attribute selectors, which is not valid CSS" % (bad[:1] or "analysis incomplete"), b.loc())
+    # the writer consults is_ident before writing the raw value
+    w = [x for k, x in prog.bodies.items() if k.startswith("<grass_compiler::selector::attribute::Attribute as std::fmt::Display>::fmt")]
+    if len(w) != 1:
+        raise AnchorMissing("Display for Attribute not found")
+    w = w[0]
+    idc = [c for c in w.calls() if (c.name() or "").endswith("utils::strings::is_ident")]
+    raw = [c for c in w.calls() if an.tail2(c.callee) in ("Write::write_str", "Formatter::write_str") and an.trace_operand(w, c.args[1]).proj[-1:] == ("value",)]
+    okw = bool(idc) and bool(raw)
+    for c in raw:
+        g = False
+        for sw, pol in common.switches_on_call(w, idc[0]) if idc else []:
+            if an.edge_dominates(w, (sw, common.bool_edge(w, sw, pol)), c.bb):
+                g = True
+        okw = okw and g
+    if okw:
+        r.ok("Attribute::fmt|raw-value-only-under-is_ident", raw_writes=len(raw))
+    else:
+        r.violate("Attribute::fmt|raw-value-only-under-is_ident", "the attribute selector writer emits the raw value without having tested is_ident() (is_ident calls: %d, raw writes: %d)" % (len(idc), len(raw)), w.loc())
+    return r
+
+
+RULES = [rule_a, rule_b, rule_c, rule_d, rule_e, rule_f]
